@@ -124,7 +124,8 @@ Inductive ty :=
 Inductive flavour := FDataclass | FNamedTuple | FTypedDict | FPlain.
 (* a field: name, annotation, default value if any *)
 Record field := { fname : nat; fty : ty; fdefault : option pv }.
-Record classdef := { cflavour : flavour; cfields : list field }.
+(* crequired: names of the keys every instance must have (TypedDict only; [] otherwise) *)
+Record classdef := { cflavour : flavour; cfields : list field; crequired : list nat }.
 Inductive ndef := NClass (c : classdef) | NType (t : ty).
 Definition env := nat -> option ndef.
 
@@ -262,9 +263,14 @@ Fixpoint kw_set (f : nat) (v : pv) (kw : list (nat * pv)) : list (nat * pv) :=
   | [] => [(f, v)]
   | (g, w) :: r => if Nat.eqb f g then (g, v) :: r else (g, w) :: kw_set f v r
   end.
+Definition has_kw (f : nat) (kw : list (nat * pv)) : bool :=
+  match kw_lookup f kw with Some _ => true | None => false end.
 Definition construct_class (c : nat) (cd : classdef) (kw : list (nat * pv)) : res pv :=
   match cflavour cd with
-  | FTypedDict => Ok (PDict KDict (map (fun fv => (PKey (fst fv), snd fv)) kw))
+  | FTypedDict =>
+      if forallb (fun fd => negb (existsb (Nat.eqb (fname fd)) (crequired cd)) || has_kw (fname fd) kw) (cfields cd)
+      then Ok (PDict KDict (map (fun fv => (PKey (fst fv), snd fv)) kw))
+      else Raise EType                            (* a required key is missing *)
   | FNamedTuple => bind (fill_fields (cfields cd) kw) (fun l => Ok (PNamed c (map snd l)))
   | FDataclass | FPlain => bind (fill_fields (cfields cd) kw) (fun l => Ok (PObj c l))
   end.
@@ -312,6 +318,8 @@ Fixpoint unm (fuel : nat) (t : ty) (x : pv) {struct fuel} : res pv :=
              (fun rs => construct_map k rs)))
     | TTuple ts =>
         bind (load x) (fun d => bind (itervalues d) (fun vs =>
+        if Nat.ltb (length vs) (length ts) then Raise EValue          (* too few members *)
+        else
         bind (mapM (fun tv => unm n (fst tv) (snd tv)) (zip_trunc ts vs)) (fun rs => Ok (PSeq KTuple rs))))
     | TUnion ts => first_ok (map (unm n) (union_stack_u ts)) x
     | TName c | TRef c | TAliasStr _ c =>
